@@ -577,6 +577,18 @@ REAL_VS_STUB = {
 
 
 def main(check, check_file):
+    """Entry point of every check: never lets a harness exception look like a verdict (exit 1)."""
+    try:
+        return _main(check, check_file)
+    except SystemExit:
+        raise
+    except BaseException as e:  # noqa
+        traceback.print_exc()
+        print(f"HARNESS-ERROR property={check.prop} {type(e).__name__}: {e}")
+        return EXIT_HARNESS
+
+
+def _main(check, check_file):
     from sim import boot
 
     args = parse_args(sys.argv[1:])
